@@ -8,15 +8,19 @@ sys.path.insert(0, os.path.dirname(os.path.abspath(__file__)))
 from vlib import guarded_main
 import specnum, ttcheck
 
-# groups: 0 tensor, 1 st2tost2, 2 t2tot2, 3 t2tost2 / st2tot2 / mixed products
-PARTS = {(0, 3): 2, (1, 3): 5, (2, 3): 4, (3, 3): 3, (1, 2): 2, (2, 2): 2}
-MODS = [ttcheck.module_name("C02", g, N, p) for g in range(4) for N in (1, 2, 3) for p in range(PARTS.get((g, N), 1))]
+# groups: 0 tensor, 1 st2tost2, 2 t2tot2, 3 t2tost2 / st2tot2 / mixed products, 4 extensions (polar decomposition, remaining products)
+PARTS = {(0, 3): 2, (1, 3): 5, (2, 3): 4, (3, 3): 3, (1, 2): 2, (2, 2): 2, (4, 3): 3, (4, 2): 2}
+GROUPS = [0, 1, 2, 3, 4]
+EXTRA_SUPPORT = ["src/Math/LUException.cxx"]  # invert / det of fourth-order tensors (LU)
+MODS = [ttcheck.module_name("C02", g, N, p) for g in GROUPS for N in (1, 2, 3) for p in range(PARTS.get((g, N), 1))]
 
 
 def main(c):
-    ttcheck.run(c, "C02", groups=[0, 1, 2, 3], parts=PARTS, spec=specnum,
-                spec_files=["TensorIndex.v", "NsatzTac.v", "TensorTactics.v", "C02Spec.v"],
-                prop_files_quick=["Properties_C02.v"], prop_files_thorough=["Properties_C02_full.v"],
+    ttcheck.run(c, "C02", groups=GROUPS, parts=PARTS, spec=specnum,
+                spec_files=["TensorIndex.v", "NsatzTac.v", "TensorTactics.v", "C02Spec.v", "Polar.v"],
+                extra_support=EXTRA_SUPPORT,
+                prop_files_quick=["Properties_C02_g%d.v" % g for g in GROUPS] + ["Properties_C02_polar.v"],
+                prop_files_thorough=["Properties_C02_full_g%d.v" % g for g in GROUPS] + ["Properties_C02_polar3.v"],
                 conditional={"A_convert": ("Properties_C02_convert.v", "Properties_C02_convert_refuted.v"),
                              # computeDeterminantSecondDerivative(tensor<N>): finding shared with C06 (thorough tier only)
                              "B_d2det": ("Properties_C02_d2det.v", "Properties_C02_d2det_refuted.v", 1)})
